@@ -97,7 +97,9 @@ struct Ctx {
 impl Ctx {
     fn log(&mut self, s: impl FnOnce() -> String) {
         if let Some(t) = self.trace.as_mut() {
-            t.push(s());
+            let l = s();
+            rt::run::trace_stream(&l);
+            t.push(l);
         }
     }
 }
